@@ -267,6 +267,11 @@ func (l *Gsub2_1) apply(ctx *Context, a, b int) int {
 	}
 
 	repl := l.Repl[idx]
+	if len(repl) == 0 {
+		// An empty replacement sequence is not allowed by the OpenType
+		// specification; ignore the rule instead of panicking.
+		return -1
+	}
 	seq[a].GID = repl[0]
 	k := len(repl)
 	if k > 1 {
